@@ -164,6 +164,12 @@ case: eqP => // pj; case: p pin pj => a b pin /= ab; subst a.
 by rewrite (dkg_uniq_fst uq pin mem).
 Qed.
 
+Lemma dkg_aggregation_idempotent (recv : seq (F * F)) (x y j s : F) :
+  dkg_aggregate (dkg_aggregate (recv, x)) = dkg_aggregate (recv, x) /\
+  dkg_aggregate (recv, x) = dkg_aggregate (recv, y) /\
+  (uniq (unzip1 recv) -> (j, s) \in recv -> dkg_recv_add recv j s = recv).
+Proof. by split=> //; split=> //; apply: dkg_recv_add_same. Qed.
+
 Lemma dkg_aggregate_honest css (jds : seq F) i (x : F) :
   size jds = size css ->
   (dkg_aggregate ([seq (p.1, dkg_share p.2 i) | p <- zip jds css], x)).2 = dkg_sk css i.
